@@ -52,6 +52,14 @@ Theorem C07_sybyl_vocabulary : forall e t g k, In (e, t, g, k) sybyl_spec ->
 Proof. apply sybyl_spec_sound. vm_compute. reflexivity. Qed.
 Print Assumptions C07_sybyl_vocabulary.
 
+(* writer and reader depend on the current state only (no memoisation): an atom / bond that already wrote another token
+   and is then re-assigned writes what a fresh one writes -- for every token resp. every BondType -- and re-typing a
+   bond with a token it was given before takes effect *)
+Theorem C07_codec_stateless :
+  get_after = seqN (lenN tokens) /\ bond_get_after = bond_get /\ bond_set_after = bond_set.
+Proof. apply stateless_sound. vm_compute. reflexivity. Qed.
+Print Assumptions C07_codec_stateless.
+
 (* the domain is not a sample: at least the 119 x 21 x 18 combinations the property speaks of *)
 Example C07_domain_nonvacuous :
   (119 <=? n_elt) && (21 <=? n_atype) && (18 <=? n_geom) && (15 <=? n_btype) && (900 <=? lenN tokens) = true
